@@ -26,7 +26,10 @@ def check_aligned(M, ctx, where):
     vals = set(lens.values())
     for k, n in lens.items():
         if n != T:
-            ctx.fail("C18:%s:length-vs-time:%s" % (where, short_key(k)))
+            sk = short_key(k)
+            if k.startswith("task:") and type(M.tasks[int(k.split(".")[0][5:])]).__name__ == "BaseSubProjectTask":
+                sk = "subprojecttask." + sk.split(".", 1)[1]
+            ctx.fail("C18:%s:length-vs-time:%s" % (where, sk))
             ctx.notes.setdefault("misaligned", "%s len=%d time=%s (%s)" % (k, n, T, where))
     return len(vals) <= 1
 
@@ -121,6 +124,8 @@ def obligations(tier, seed):
     fac = [ob for ob in profiles.p_product("F1", thorough) if "wps=2/links=0>1/wprule=0/fs" in ob["name"]][0]
     spec = dict(fac["cube"]["spec"])
     members.append(("prod", spec, [["w0", 1, 2], ["w1", 1, 2]], {"z0": 1, "z1": 1, "cap0": 1, "cap1": 1, "fs0": 1, "fs1": 1}))
+    members.append(("subtask", {"tasks": [{"w": "$w0"}, {"w": "$w1", "subproject": True}], "edges": [[0, 1, 0]],
+                                "teams": profiles.layout_workers("shared1", 2), "run": {"max_time": 10, "abs": ["$pa0"]}}, [["w0", 1, 2], ["w1", 1, 2], ["pa0", 0, 6]], {}))
     seqs = [
         [["insert", ["$i0"]]], [["insert", ["$i0", "$i1"]]], [["insert", ["$i0"]], ["remove"]], [["insert", ["$i0", "$i1"]], ["remove"]],
         [["remove"]], [["remove"], ["insert", ["$i0"]]], [["insert", ["$i0"]], ["insert", ["$i1"]]],
@@ -128,7 +133,7 @@ def obligations(tier, seed):
     if thorough:
         seqs += [[["insert", ["$i0", "$i1", "$i2"]], ["remove"]], [["insert", ["$i0"]], ["remove"], ["insert", ["$i1"]]], [["insert", ["$i0"]], ["insert", ["$i1"]], ["remove"]]]
     for mname, spec, params, consts in members:
-        for ops in seqs:
+        for ops in (seqs if mname != "subtask" else seqs[:1] + seqs[4:5]):
             names = sorted({x[1:] for o in ops if len(o) > 1 for x in o[1]})
             pr = list(params) + [[n, 0, 8 if thorough else 7] for n in names]
             obs.append({"name": "edit/%s/%s" % (mname, ">".join(o[0] + (str(len(o[1])) if len(o) > 1 else "") for o in ops)), "harness": "edit",
